@@ -108,6 +108,8 @@ def rule_r1(F, rep):
             n = callee_name(t) or ""
             if n == "<%s>::eat_simple" % PARSER:
                 a = args[1]
+                if not (isinstance(a, tuple) and a[0] == "var"):
+                    raise kwalk.WalkLimit("the token kind asked for is not a constant at this call (table-driven parser code)")
                 if isinstance(a, tuple) and a[0] == "var" and a[2] == tok and not env.get("#eaten"):
                     env["#eaten"] = 1
                     return ("var", OPTION, "Some")
@@ -117,6 +119,8 @@ def rule_r1(F, rep):
                 return ("var", OPTION, "None")
             if n == "<%s>::peek_simple" % PARSER:
                 a = args[1]
+                if not (isinstance(a, tuple) and a[0] == "var"):
+                    raise kwalk.WalkLimit("the token kind asked for is not a constant at this call (table-driven parser code)")
                 off = args[2] if len(args) > 2 else None
                 if isinstance(a, tuple) and a[0] == "var" and a[2] in peek and off == 0:
                     return 1
@@ -286,12 +290,16 @@ def rule_r3(F, rep):
             nxt = toks[i] if i < len(toks) else None
             if n == "<%s>::eat_simple" % PARSER:
                 a = args[1]
+                if not (isinstance(a, tuple) and a[0] == "var"):
+                    raise kwalk.WalkLimit("the token kind asked for is not a constant at this call (table-driven parser code)")
                 if isinstance(a, tuple) and a[0] == "var" and a[2] == nxt:
                     env["#tok"] = i + 1
                     return ("var", OPTION, "Some")
                 return ("var", OPTION, "None")
             if n == "<%s>::expect_simple" % PARSER:
                 a = args[1]
+                if not (isinstance(a, tuple) and a[0] == "var"):
+                    raise kwalk.WalkLimit("the token kind asked for is not a constant at this call (table-driven parser code)")
                 if isinstance(a, tuple) and a[0] == "var" and a[2] == nxt:
                     env["#tok"] = i + 1
                     return ("var", RESULT, "Ok")
@@ -303,6 +311,8 @@ def rule_r3(F, rep):
                 return ("var", RESULT, "Err")
             if n == "<%s>::peek_simple" % PARSER:
                 a = args[1]
+                if not (isinstance(a, tuple) and a[0] == "var"):
+                    raise kwalk.WalkLimit("the token kind asked for is not a constant at this call (table-driven parser code)")
                 return int(isinstance(a, tuple) and a[0] == "var" and a[2] == nxt)
             return None
 
@@ -368,6 +378,8 @@ def rule_r4(F, rep):
                 n = callee_name(t) or ""
                 if n == "<%s>::eat_simple" % PARSER:
                     a = args[1]
+                    if not (isinstance(a, tuple) and a[0] == "var"):
+                        raise kwalk.WalkLimit("the token kind asked for is not a constant at this call (table-driven parser code)")
                     if isinstance(a, tuple) and a[0] == "var" and a[2] == tok and not env.get("#eaten"):
                         env["#eaten"] = 1
                         return ("var", OPTION, "Some")
@@ -428,6 +440,8 @@ def rule_r5(F, rep):
             nm = callee_name(t) or ""
             if nm == "<%s>::eat_simple" % PARSER:
                 a = args[1]
+                if not (isinstance(a, tuple) and a[0] == "var"):
+                    raise kwalk.WalkLimit("the token kind asked for is not a constant at this call (table-driven parser code)")
                 if isinstance(a, tuple) and a[0] == "var" and a[2] in SUFFIX_STARTS:
                     if a[2] == first and not env.get("#eaten"):
                         env["#eaten"] = 1
@@ -484,6 +498,8 @@ def rule_r5(F, rep):
             nm = callee_name(t) or ""
             if nm == "<%s>::eat_simple" % PARSER:
                 a = args[1]
+                if not (isinstance(a, tuple) and a[0] == "var"):
+                    raise kwalk.WalkLimit("the token kind asked for is not a constant at this call (table-driven parser code)")
                 if isinstance(a, tuple) and a[0] == "var" and a[2] in SUFFIX_STARTS:
                     if a[2] == first:
                         env["#eaten"] = 1
